@@ -130,6 +130,9 @@ func ruleR05_5(c *Check) {
 			if g.Implicit || g.Lifted {
 				continue
 			}
+			if eq == nil {
+				break // already reported above
+			}
 			if g == *eq {
 				continue
 			}
